@@ -459,6 +459,9 @@ func (c *ctx) engineCase(a, b Schema, desc string, o engineOpts) {
 	}
 	add("S0 ok")
 	ic := "input-class=" + classifyFor(a, b, o.inspected || o.exported) + "; "
+	if o.exported {
+		ic = "input-class=" + joinClass(classifyFor(a, b, true), exportedClass(b)) + "; "
+	}
 	for _, r := range o.rows {
 		if err := l.exec(insertSQL(r, *a.table(r.table))); err != nil {
 			if !o.withModel && rowError(err) {
@@ -601,6 +604,10 @@ func (c *ctx) engineCase(a, b Schema, desc string, o engineOpts) {
 	c.w.Count("engine.kind=" + strings.SplitN(strings.SplitN(desc, ":", 2)[0], "+", 2)[0])
 	if len(cs) > 0 {
 		c.w.NonTrivial(showSchemaChanges(cs, nil))
+	}
+	if o.exported && strings.HasSuffix(desc, ":same") && len(cs) > 0 {
+		// D2 is D1 itself: its own export must not plan anything (FindGeneratedIndex has to find the renamed constraint index)
+		c.w.Violation(id, "exported-self-diff", ic+fmt.Sprintf("the unedited export of a database, applied to an identical database, is not a no-op: diff=%s [%s]", showSchemaChanges(cs, nil), desc))
 	}
 	if o.fill != nil {
 		if aerr != nil {
